@@ -4,7 +4,6 @@ import (
 	"github.com/bokysan/socketace/v2/internal/util/enc"
 	log "github.com/sirupsen/logrus"
 	"golang.org/x/net/dns/dnsmessage"
-	"math"
 )
 
 const (
@@ -34,23 +33,20 @@ type UpstreamConfig struct {
 
 // GetLongestDataString returns the longest data string available, when all dots and domain are included in the calculation
 func GetLongestDataString(domain string) int {
-
-	// Available space is maximum query length
-	space := HostnameMaxLen
-	// minus domain length minus dot before and after domain
+	// The name built by PrepareHostname is  dotified(body) + "." + domain + "."  and must not exceed
+	// HostnameMaxLen-2; Dotify inserts one dot after every 57 characters of the body.
+	space := HostnameMaxLen - 2
 	space = space - len(domain) - 2
 
-	// minus command len
-	space = space - 1
+	// room for the dots: of every 58 characters of the dotified body one is a dot
+	space = space - space/58
 
-	// minus all dots that need to be inserted
-	space = space - int(math.Ceil(float64(space)/float64(LabelMaxlen)))
+	// room for the two-character order tag that CNAME answers put in front of the data
+	space = space - 2
 
 	return space
 }
 
-// PrepareHostname will finalize hostname -- add dots in the name, if needed. It will verify that the total
-// lenght of the hostname does not exiceed HostnameMaxLen and throw an error it it does.
 func PrepareHostname(data []byte, domain string) ([]byte, error) {
 	if len(data) > LabelMaxlen {
 		data = Dotify(data)
